@@ -262,13 +262,26 @@ def r8_body_reaches_read_body_untouched(ctx):
         raise AnchorLost("TowerToHyperService::call")
     for b in ad:
         R.fn(b)
-        maps = b.calls_to(r"Request::<.*>::map$")
-        ok = False
-        for m in maps:
-            k = op_const(m.args[1]) if len(m.args) > 1 else None
-            if k and re.search(r"http_helpers::Body::new$", k.get("fn", "") or ""):
-                ok = True
-        R.check(ok and len(maps) == 1, "C19.R8", "adaptor:wraps-body-unconditionally", "the hyper->tower adaptor wraps the incoming body with HttpBody::new", "TowerToHyperService::call no longer wraps the incoming body unconditionally with HttpBody::new (it decides per request what body the service gets)", "%s:%d" % (b.file, b.lo))
+        fam = [b] + [x for x in F.real_bodies() if x.path.startswith(b.path + "::{closure")]
+        wraps = 0
+        branches = []
+        for x in fam:
+            wraps += len(x.calls_to(r"http_helpers::Body::new$"))
+            for bi, blk in enumerate(x.blocks):
+                if blk.get("cleanup") or bi not in x.reachable:
+                    continue
+                t = blk.get("term")
+                if t and t["t"] == "switch":
+                    branches.append("%s:%d" % (x.file, t["sp"][0]))
+                for st in blk["st"]:
+                    if st["s"] == "assign" and re.search(r"http_helpers::Body::new", str(st["rv"])):
+                        wraps += 1
+                if t and t["t"] == "call":
+                    for a in t["args"]:
+                        k = op_const(a)
+                        if k and re.search(r"http_helpers::Body::new$", k.get("fn", "") or ""):
+                            wraps += 1
+        R.check(wraps >= 1 and not branches, "C19.R8", "adaptor:wraps-body-unconditionally", "the hyper->tower adaptor wraps the incoming body with HttpBody::new on its only path", "TowerToHyperService::call no longer wraps the incoming body unconditionally with HttpBody::new (%s): it decides per request what body the service gets" % ("branches at %s" % branches if branches else "HttpBody::new is not used"), "%s:%d" % (b.file, b.lo))
 
 
 def r5_loop_exits(ctx):
